@@ -141,3 +141,30 @@ Definition read_chan (d : db) (k : Z) (t : tr) : list series :=
   let '(P, D, var) := chan_layout d k in
   let '(i, ok) := u_seek_first D (u_open t) in
   if negb ok then [] else read_loop (4 + length D) P D var i [].
+
+(* ---- DB.Read over several channels (streamIterator: every command goes to every unary
+   iterator, the acknowledgement is the OR; only valid iterators contribute their frame) ---- *)
+Record rchan := RC { rc_key : Z; rc_P : list dom; rc_D : list dom; rc_var : bool; rc_it : uiter; rc_acc : list series }.
+
+Definition rc_next (r : rchan) : rchan :=
+  let i' := u_next (rc_P r) (rc_D r) (rc_var r) DEFAULT_CHUNK false (rc_it r) MAXTS in
+  RC (rc_key r) (rc_P r) (rc_D r) (rc_var r) i'
+     (if u_valid i' then rc_acc r ++ u_frame i' else rc_acc r).
+
+Fixpoint db_read_loop (fuel : nat) (rs : list rchan) : list rchan :=
+  match fuel with
+  | O => rs
+  | S f =>
+      let rs' := map rc_next rs in
+      if existsb (fun r => u_valid (rc_it r)) rs' then db_read_loop f rs' else rs'
+  end.
+
+(* None: a requested channel does not exist (OpenIterator fails with "not found") *)
+Definition db_read (d : db) (keys : list Z) (t : tr) : option (list (Z * list series)) :=
+  if negb (forallb (fun k => match get_chan d k with Some _ => true | None => false end) keys) then None else
+  let opened := map (fun k => let '(P, D, var) := chan_layout d k in
+                              let '(i, ok) := u_seek_first D (u_open t) in
+                              (RC k P D var i [], ok)) keys in
+  if negb (existsb snd opened) then Some (map (fun k => (k, [])) keys) else
+  let fuel := (4 + fold_left (fun n r => n + length (rc_D (fst r))) opened 0)%nat in
+  Some (map (fun r => (rc_key r, rc_acc r)) (db_read_loop fuel (map fst opened))).
